@@ -137,7 +137,7 @@ def hooks(ctx: Ctx):
         if ci is None:
             ctx.unknown("R20.3", site, "class not found")
             continue
-        defined = [hk for hk in HOOKS if hk in ci.methods]
+        defined = [hk for hk in HOOKS if hk in ci.methods or hk in ci.attrs]       # `__copy__ = copy` in the class body counts
         slots = "__slots__" in ci.attrs
         if not defined and not slots:
             ctx.proved("R20.3", site, "default reconstruction protocol (no custom reduce/state hooks, no __slots__)")
@@ -154,7 +154,7 @@ def hooks(ctx: Ctx):
             continue
         # a custom hook is not wrong by itself; decide it by emulating the default copy protocol on a model object
         verdict = emulate_copy(ctx, cname, defined, slots)
-        fn = ci.methods[defined[0]] if defined else None
+        fn = ci.methods.get(defined[0]) if defined else None
         wh = where(fn, fn.node) if fn else f"space_packet_parser/{ci.relpath}:{ci.node.lineno}"
         if verdict is None:
             ctx.unknown("R20.3", site, f"{cname} defines {defined + (['__slots__'] if slots else [])}; cannot decide whether copies keep "
@@ -304,6 +304,10 @@ def emulate_packet_copy(ctx: Ctx, defined):
             k, c = h.outcome("p.__copy__()", "packets.py", p=p)
             if k != "ok" or dict(c) != dict(p) or pub(c, "raw_data") is None:
                 return (False, "copy.copy of a parsed packet loses items or raw data")
+            r0, r1 = pub(p, "raw_data"), pub(c, "raw_data")
+            if bytes(r1) != bytes(r0) or cursor(h, r1) != 16:
+                return (False, f"copy.copy of a packet parsed up to bit 16 comes back with raw bytes {bytes(r1).hex()} and cursor {cursor(h, r1)}: "
+                               f"the copy does not continue where the original stands")
         return (True, "custom copy hooks keep items, raw bytes and an independent cursor (emulated)")
     except Unsupported:
         return None
